@@ -25,6 +25,11 @@ def mon_internal(w):
     for (tname, msg, where) in w.errors:
         internal.add(tname)
         w.flag("internal-failure", "%s@%s" % (tname, where), "log.err: %s at %s: %s" % (tname, where, msg))
+    for (tname, msg, where) in w.__dict__.get("swallowed", ()):
+        # raised inside a Deferred callback: nothing escapes and nothing is logged until the garbage collector finds the Deferred
+        internal.add(tname)
+        if not any(r[2] == tname for r in w.escaped) and not any(r[0] == tname for r in w.errors):
+            w.flag("internal-failure", "in-callback:%s@%s" % (tname, where), "%s raised inside a Deferred callback at %s: %s" % (tname, where, msg))
     for c in w.clients:
         for k, v in c.app.obs:
             if (k == "closed" or k.startswith("err:")) and v not in DOCUMENTED and v != "WormholeClosed" \
